@@ -39,6 +39,24 @@ def eq(a, b, layout=False):
 LAYOUT = {'strided', 'fortran', 'fortran-column', 'x-strided'}
 
 
+def conditioning_excuses(ctx, b, want, run_perturbed):
+    """a memory-layout variant may round differently (1e-16); an ill-conditioned problem amplifies that. The difference is
+    attributed to the conditioning when it is within 1000x the change caused by a 1e-14 relative perturbation of the data"""
+    try:
+        b, want = np.asarray(b, dtype=float), np.asarray(want, dtype=float)
+        if b.shape != want.shape or not (np.all(np.isfinite(b)) and np.all(np.isfinite(want))):
+            return False
+        d_obs = float(np.max(np.abs(b - want)))
+        bp = np.asarray(run_perturbed(), dtype=float)
+        d_pert = float(np.max(np.abs(bp - want)))
+        if d_obs <= 1000 * d_pert:
+            ctx.count('ill-conditioned-case')
+            return True
+    except Exception:          # noqa: BLE001
+        pass
+    return False
+
+
 def params_equal(pa, pb):
     fa, fb = cmp.flatten(pa), cmp.flatten(pb)
     if set(fa) != set(fb):
@@ -183,6 +201,9 @@ def correspond(ctx):
             ctx.case(('1d', name, label), nontrivial=True, sample={'method': name, 'variant': label} if len(ctx.samples) < 3 else None)
             want = np.asarray(rb, dtype=dt if dt is not None else rb.dtype)
             if not eq(b, want, label in LAYOUT):
+                if label in LAYOUT and conditioning_excuses(ctx, b, want, lambda: call1d(
+                        name, x, (np.array([yref, yref + 1]) if stack else yref) * (1 + 1e-14 * np.where(np.arange(np.size(yref)) % 2, 1.0, -1.0)), kw)[0]):
+                    continue
                 report(f'1d:{name}:{label}', f'{name}: {label} input gives a different baseline than the reference layout '
                        f'(dtype {np.asarray(b).dtype} vs {want.dtype}, max diff '
                        f'{float(np.max(np.abs(np.asarray(b, float) - np.asarray(want, float)))) if np.shape(b) == np.shape(want) else "shape"})', meta)
@@ -399,6 +420,9 @@ def correspond(ctx):
             ctx.case(('2d', name, label), nontrivial=True, sample={'method': '2-D ' + name, 'variant': label} if len(ctx.samples) < 5 else None)
             want = np.asarray(wb, dtype=dt if dt is not None else wb.dtype)
             if not eq(b, want, label in LAYOUT):
+                if label in LAYOUT and conditioning_excuses(ctx, b, want, lambda: getattr(Baseline2D(x, z), name)(
+                        (np.array([yref, yref + 1]) if stack else yref) * (1 + 1e-14 * np.where(np.arange(yref.size).reshape(yref.shape) % 2, 1.0, -1.0)), **kw)[0]):
+                    continue
                 report(f'2d:{name}:{label}', f'2-D {name}: {label} input gives a different baseline than the reference layout', meta)
             elif label not in LAYOUT:
                 pe = params_equal(p, wp)
